@@ -240,6 +240,17 @@ func (o *recop) HandleEventBatch(ctx context.Context, batch []*workerpb.Event) e
 
 const finalCkpt = 1000000
 
+// stalls counts cases that hit a timeout; after two of them later waits are short so that a build of /repo
+// that stalls the pipeline does not make the whole run take hours.
+var stalls int
+
+func waitLimit() time.Duration {
+	if stalls >= 2 {
+		return 400 * time.Millisecond
+	}
+	return 8 * time.Second
+}
+
 func genRunner(r *hx.Rand, tier string) *hx.Case {
 	nsplits := r.Range(1, 4)
 	nops := r.Range(1, 4)
@@ -347,7 +358,7 @@ func execRunner(c *hx.Case) (*hx.Result, error) {
 
 	started := false
 	ckid := uint64(0)
-	timeout := func() <-chan time.Time { return time.After(20 * time.Second) }
+	timeout := func() <-chan time.Time { return time.After(waitLimit()) }
 	complete := true
 	// waitFor feeds empty read results until the loop has taken the awaited select case
 	waitFor := func(ch chan struct{}) bool {
@@ -387,8 +398,9 @@ func execRunner(c *hx.Case) (*hx.Result, error) {
 		}
 	}
 	doCkpt := func(id uint64) bool {
-		sr.HandleStartCheckpoint(ctx, id)
-		return waitFor(job.done)
+		called := make(chan struct{}, 1)
+		go func() { sr.HandleStartCheckpoint(ctx, id); called <- struct{}{} }()
+		return waitFor(job.done) && waitFor(called)
 	}
 	nck, nreadsWithData := 0, 0
 	for _, raw := range c.Ops {
@@ -465,6 +477,9 @@ func execRunner(c *hx.Case) (*hx.Result, error) {
 		}) {
 			complete = false
 		}
+	}
+	if !complete {
+		stalls++
 	}
 	mu.Lock()
 	var streams []string
@@ -689,6 +704,13 @@ type park struct {
 
 var parks sync.Map
 
+// one kinesisfake server for the whole run, one stream per case
+var (
+	fakeOnce   sync.Once
+	fakeClient *awskinesis.Client
+	streamSeq  int
+)
+
 func init() {
 	verifhook.Set(func(name string, args ...any) {
 		if name != "kinesis.splitter.loop" || len(args) == 0 {
@@ -752,11 +774,14 @@ func genKinesis(r *hx.Rand, tier string) *hx.Case {
 func execKinesis(c *hx.Case) (*hx.Result, error) {
 	nr := pint(c, "runners", 2)
 	nshards := pint(c, "shards", 2)
-	srv, _ := kinesisfake.StartFake()
-	defer srv.Close()
-	client := kinesis.NewLocalClient(srv.URL)
+	fakeOnce.Do(func() {
+		srv, _ := kinesisfake.StartFake()
+		fakeClient = kinesis.NewLocalClient(srv.URL)
+	})
+	client := fakeClient
 	bg := context.Background()
-	name := "s"
+	streamSeq++
+	name := fmt.Sprintf("s%d", streamSeq)
 	n32 := int32(nshards)
 	_, err := client.CreateStream(bg, &awskinesis.CreateStreamInput{StreamName: &name, ShardCount: &n32})
 	must(err)
